@@ -141,6 +141,13 @@ def _final_value(fi, ex, attr):
             vals.append(ex.local(name))
     if len(vals) > 1:
         raise AnalysisError("M3: %s updates self.%s both by a store and through an alias" % (fi.qualname, attr))
+    if not vals:
+        # the array handed to a helper that updates it in place (`self._accumulate(self.log_p, xs)`): the interpreter
+        # records the content written through the parameter
+        want = ("attr", selfkey, attr)
+        through = [e for e in ex.events if e.name == "store_content" and len(e.args) == 2 and isinstance(e.args[0], Poly) and e.args[0].as_atom() == want and not e.guards]
+        if through:
+            return through[-1].args[1]
     return vals[0] if vals else Poly.atom(("attr", selfkey, attr))
 
 
